@@ -342,9 +342,9 @@ func main() {
 		"and read on a random schedule (frames cut early wherever Read allows); frames delivered (a) in order without loss, (b) with " +
 		"drops / duplicates / window shuffles / reversed, optionally interleaved with a second stream; every step is a model op. " +
 		"non-trivial = an op that produced a frame or emitted a packet"
-	ntrials := e.N(260, 6000)
+	ntrials := e.N(260, 2000)
 	mtus := []int{57, 58, 59, 60, 96, 97, 128, 256, 576, 1280, 1500, 1557}
-	var totalEmitted, lossless, guarded int
+	var totalEmitted, lossless, guarded, guardedAll int
 	for t := 0; t < ntrials; t++ {
 		mtu := mtus[r.Intn(len(mtus))]
 		if r.Chance(25) {
@@ -383,6 +383,9 @@ func main() {
 			}
 		} else {
 			guarded++ // a packet needs more frames than the reassembly list holds (DESIGN 7a)
+			if len(got) == len(s1.sent) {
+				guardedAll++
+			}
 		}
 		// (b) faults
 		sentSet := map[string]bool{}
@@ -466,5 +469,6 @@ func main() {
 	e.Extra["packets_emitted"] = totalEmitted
 	e.Extra["lossless_trials_checked"] = lossless
 	e.Extra["lossless_trials_over_list_capacity"] = guarded
+	e.Extra["lossless_trials_over_list_capacity_that_still_delivered_all"] = guardedAll
 	e.Finish()
 }
